@@ -27,6 +27,7 @@ EDIT_OPS = (
     "pickle_roundtrip",
     "holder_roundtrip",
     "full_update",
+    "snapshot",
     "sampler",
     "fork",
 )
@@ -44,7 +45,7 @@ def st_program(draw, max_points=6, max_edits=30, samplers=True, forks=False):
     for _ in range(n_place):
         ops.append([draw(st.sampled_from(PLACE_OPS)), draw(sel), draw(sel), draw(sel)])
         if draw(st.integers(0, 3)) == 0:
-            ops.append([draw(st.sampled_from(["copy", "dict_roundtrip", "holder_roundtrip", "pickle_roundtrip"] + (["fork"] if forks else []))), draw(sel), 0, 0])
+            ops.append([draw(st.sampled_from(["copy", "dict_roundtrip", "holder_roundtrip", "snapshot", "pickle_roundtrip"] + (["fork"] if forks else []))), draw(sel), 0, 0])
     m = draw(st.integers(0, max_edits))
     for _ in range(m):
         ops.append([draw(st.sampled_from(edits)), draw(sel), draw(sel), draw(sel)])
@@ -126,7 +127,7 @@ def name_of(tree, model, c):
 
 
 class Machine:
-    def __init__(self, case, on_step=None):
+    def __init__(self, case, on_step=None, probe=None):
         from phyclone.smc.utils import RootPermutationDistribution
         from phyclone.tree import FSCRPDistribution, Tree, TreeJointDistribution
 
@@ -148,6 +149,8 @@ class Machine:
         self.skipped = 0
         self.classes = set()
         self.on_step = on_step
+        self.ghosts = []  # (label, tree restored from a snapshot and never edited, snapshot dict, model at that time)
+        self.probe = probe  # called on intermediate states inside an edit: probe(machine, tree, partial_model, label)
         self.removal_seen = False
         self.edit_after_removal = False
         self.fork_after_prune = False
@@ -206,9 +209,12 @@ class Machine:
             return False
         d = self.unplaced.pop(0)
         cl = roots[a % len(roots)]
+        inplace = b % 3 == 0  # in-place edits are legitimate API use (the subtree sampler and relabel work in place)
+        if inplace:
+            self.classes.add("in-place-edit")
 
         def fn(t):
-            t = t.copy()
+            t = t if inplace else t.copy()
             t.add_data_point_to_node(self.data[d], name_of(t, self.model, cl))
             return t
 
@@ -251,9 +257,12 @@ class Machine:
         if not self.unplaced or self.case.get("outlier_prior", 0.0) == 0.0 and a % 4 != 0:
             return False
         d = self.unplaced.pop(0)
+        inplace = b % 3 == 0
+        if inplace:
+            self.classes.add("in-place-edit")
 
         def fn(t):
-            t = t.copy()
+            t = t if inplace else t.copy()
             t.add_data_point_to_outliers(self.data[d])
             return t
 
@@ -273,11 +282,29 @@ class Machine:
         if src is None:
             self.classes.add("move-out-of-outliers")
 
+        partial = self.model.copy()
+        if src is None:
+            partial.outliers.remove(d)
+        else:
+            partial.blocks[src].remove(d)
+        via_outlier_api = src is None and c % 2 == 1  # the subtree sampler removes outliers through this entry point
+
+        inplace = c % 3 == 0
+        if inplace:
+            self.classes.add("in-place-edit")
+
         def fn(t):
-            t = t.copy()
+            t = t if inplace else t.copy()
+            if self.probe is not None:
+                self.probe(self, t, self.model, "before-remove")
             old = -1 if src is None else name_of(t, self.model, src)
             new = None if dst is None else name_of(t, self.model, dst)  # resolve before removal
-            t.remove_data_point_from_node(self.data[d], old)
+            if via_outlier_api:
+                t.remove_data_point_from_outliers(self.data[d])
+            else:
+                t.remove_data_point_from_node(self.data[d], old)
+            if self.probe is not None:
+                self.probe(self, t, partial, "after-remove")
             if dst is None:
                 t.add_data_point_to_outliers(self.data[d])
             else:
@@ -289,7 +316,7 @@ class Machine:
             other = [x for x in self.model.blocks[src] if x != d]
 
             def fn(t):  # noqa: F811
-                t = t.copy()
+                t = t if inplace else t.copy()
                 nm = t.labels[other[0]]
                 t.remove_data_point_from_node(self.data[d], nm)
                 t.add_data_point_to_node(self.data[d], nm)
@@ -437,7 +464,12 @@ class Machine:
 
         if self._holes(self.tree):
             self.classes.add("serialise-with-index-holes")
-        self._both(lambda t: Tree.from_dict(t.to_dict()))
+        snap = self.tree.to_dict()
+        self._ghost("dict", Tree.from_dict(snap), snap)
+        if self.twin is None:
+            self.tree = Tree.from_dict(snap)  # the working tree and the ghost are two restores of ONE snapshot
+        else:
+            self._both(lambda t: Tree.from_dict(t.to_dict()))
         return True
 
     def op_pickle_roundtrip(self, a, b, c):
@@ -457,8 +489,27 @@ class Machine:
 
         if not self._holder_ok(self.tree) or (self.twin is not None and not self._holder_ok(self.twin)):
             return False
-        self._both(lambda t: TreeHolder(t, self.td, self.perm).tree)
+        if self.twin is None:
+            holder = TreeHolder(self.tree, self.td, self.perm)
+            self._ghost("holder", holder.tree, None)
+            self.tree = holder.tree
+        else:
+            self._both(lambda t: TreeHolder(t, self.td, self.perm).tree)
         return True
+
+    def op_snapshot(self, a, b, c):
+        """take a snapshot (as the run loop does for the trace) and keep editing the SAME live tree afterwards"""
+        from phyclone.tree import Tree
+
+        snap = self.tree.to_dict()
+        self._ghost("trace-entry", Tree.from_dict(snap), snap)
+        return True
+
+    def _ghost(self, label, tree, snap):
+        self.ghosts.append((label, tree, snap, self.model.copy()))
+        if len(self.ghosts) > 3:
+            self.ghosts.pop(0)
+        self.classes.add("ghost-restores")
 
     # ------------------------------------------------------------------ C15: fork a round-tripped twin
     def op_fork(self, a, b, c):
@@ -617,6 +668,8 @@ def compare_with_rebuild(machine: Machine, tree, mt: MTree, tol=1e-8, where=""):
     ta = node_arrays(tree)
     by_content_f = {frozenset(dp.idx for dp in fresh.get_data(n)): n for n in fresh.nodes}
     by_content_t = {frozenset(dp.idx for dp in tree.get_data(n)): n for n in tree.nodes}
+    if set(by_content_f) != set(by_content_t):
+        raise Violation("stale/assignment", "%s: the tree's clones hold %r but the expected assignment is %r, so its cached vectors cannot be those of that assignment" % (where, sorted(sorted(c) for c in by_content_t), sorted(sorted(c) for c in by_content_f)), tags)
     worst = 0.0
     for content, fn in by_content_f.items():
         tn = by_content_t[content]
@@ -635,3 +688,28 @@ def compare_with_rebuild(machine: Machine, tree, mt: MTree, tol=1e-8, where=""):
         if not abs(a - b) <= tol * max(1.0, abs(b)):
             raise Violation("stale/density-%s" % nm, "%s: %s=%.12g, fresh rebuild %.12g (tree %r)" % (where, nm, a, b, mt), tags)
     return worst
+
+
+def check_ghosts(machine, where, structural=True, values=False):
+    """Trees restored earlier from a snapshot (and never edited since) and the snapshots themselves must be unaffected
+    by later edits of other restores / of the tree the snapshot was taken from (no aliasing of per-clone data lists)."""
+    from phyclone.tree import Tree
+
+    for label, ghost, snap, model in machine.ghosts:
+        w = "%s: tree restored earlier from a %s snapshot and not edited since" % (where, label)
+        try:
+            if structural:
+                mt = structural_invariants(ghost, model, where=w)
+            else:
+                mt = model.to_mtree()
+            if values:
+                compare_with_rebuild(machine, ghost, mt, where=w)
+            if snap is not None:
+                again = Tree.from_dict(snap)
+                w2 = "%s: snapshot dict taken earlier, restored now" % where
+                if structural:
+                    structural_invariants(again, model, where=w2)
+                if values:
+                    compare_with_rebuild(machine, again, mt, where=w2)
+        except Violation as v:
+            raise Violation("aliasing/" + v.component, v.message, dict(v.tags, aliasing=True))
